@@ -53,7 +53,7 @@ pub fn probe(args: &[String]) -> i32 {
         let (tag, dir) = (parts[0], Path::new(parts[1]));
         let flags = parts.get(2).copied().unwrap_or("");
         let now = std::time::SystemTime::now().duration_since(std::time::UNIX_EPOCH).map(|x| x.as_secs()).unwrap_or(0);
-        deadline.store(now + 60, std::sync::atomic::Ordering::SeqCst);
+        deadline.store(now + 25, std::sync::atomic::Ordering::SeqCst);
         // progress marker so that a hang can be attributed
         writeln!(out, "{}", json!({"tag": tag, "stage": "begin"})).unwrap();
         out.flush().unwrap();
